@@ -16,7 +16,7 @@ from tools.vlib import sx
 P = 2147483647
 THEOREMS_FILE = "C07"
 ASSUMPTIONS = [
-    "C07 theorems: sizes 1..7 (Heap's enumeration checked by kernel evaluation up to n = 7); the correspondence runs sizes 1..6 (plus non-square shapes up to 8 columns)",
+    "C07 theorems: every size n >= 1 (Heap's enumeration proved for all n in Proofs/C07HeapN.v; the older n <= 7 kernel evaluation is kept as a cross-check); the correspondence runs sizes 1..6 (plus non-square shapes up to 8 columns)",
     "views: the model receives the CONTENT of the view; the view adaptors themselves (transpose, mask, range, index_by) are C02's subject and are only cross-checked here against the plain tensor result",
     "floats ('to rounding accuracy') are not modelled: exact element types only (Rat, Fp)",
 ]
